@@ -356,6 +356,12 @@ def main(mod, argv):
                         wall_s=round(time.time() - t_h, 1),
                         hypothesis_version=hyp.hypothesis.__version__)
         hyp_viol = [(p, r['violation']) for p, r in enumerate(hres) if r['violation']]
+        if a.dump_digests:
+            with open(a.dump_digests) as f:
+                dd = json.load(f)
+            dd.update({f'hyp{p}': r['digest'] for p, r in enumerate(hres)})
+            with open(a.dump_digests, 'w') as f:
+                json.dump(dd, f)
         if not a.no_selftest and not hyp_viol:
             try:
                 envv = dict(os.environ, PYTHONHASHSEED='77', VERIF_SEED=str(verif_seed))
